@@ -371,7 +371,8 @@ def plan(tier):
     for group in (False, True):
         for pk in ("revoke", "revoke_default_type_omitted", "image_as_text", "empty", "unknown_fields") + \
                 (("revoke+skdm", "image_as_text+skdm", "unknown_fields+skdm") if group else ()):
-            attrs = dict(_msg_attrs(group), type=S.CONST("text"))
+            # (newer content kinds arrive under stanza types of their own, or with none: what counts is the payload)
+            attrs = dict(_msg_attrs(group), type=S.OPT(S.WORD("text", "text", "text", "reaction", "poll", "pay", "newsletter")))
             blob = S.Kind("PAYLOAD_" + pk, S.TEXT.strategy.map(lambda s, _pk=pk: payload(_pk, s)), is_bytes=True)
             shape = S.N("message", attrs, children=[S.N("proto", {}, data=blob)])
             strategies.append(("message_%s_%s" % (pk, "group" if group else "direct"),
